@@ -50,12 +50,19 @@ def describe(f, ev):
     if new.get("fam") == "url":
         extra = " QueryUnescape=%s" % (txt(new.get("q", [])) if new.get("qok") else "error")
     if new.get("fam") == "mediatype":
-        extra = " mime.ParseMediaType=%s" % ((txt(new.get("stdmt", [])), [txt(x) for x in new.get("stdk", [])], [txt(x) for x in new.get("stdv", [])])
+        extra = " mime.ParseMediaType=%s" % (str((txt(new.get("stdmt", [])), [txt(x) for x in new.get("stdk", [])], [txt(x) for x in new.get("stdv", [])]))
                                              if new.get("stdok") else "error")
     if new.get("kind") == "enc":
         extra = " built from media type %s%s, %s, payload %s" % (txt(new["base"]), txt(new["params"]), new["enc"], txt(new["payload"]))
-    obs = {k: (txt(v) if isinstance(v, list) and all(isinstance(x, int) for x in v) and k not in ("mu", "md") else v)
-           for k, v in ev.items() if k not in ("t", "i", "ev", "s")}
+    def show(v):
+        if v == []:
+            return v
+        if isinstance(v, list) and all(isinstance(x, int) for x in v):
+            return txt(v)
+        if isinstance(v, list) and all(isinstance(x, list) for x in v):
+            return [txt(x) for x in v]
+        return v
+    obs = {k: show(v) for k, v in ev.items() if k not in ("t", "i", "ev", "s")}
     return "%s(%s)%s observed %s: rejected by Helpers.tla" % (ev.get("ev"), txt(arg), extra, json.dumps(obs, sort_keys=True))
 
 
@@ -125,7 +132,7 @@ def run(ck):
                            "alphabets": {"num": "+ - . e E 0 9 % a x", "dec": "% h l H n + o", "text": "sp nl tab ff cr nw U l o",
                                          "fold": "s over 10 bytes around A-Z/a-z, target over 8 non-upper bytes",
                                          "enc": "all 256 bytes alone/doubled/in context + strings over 7 bytes, both tables",
-                                         "datauri": "3 media types x 3 parameter lists x 5 encodings x payloads over 9 bytes + 21 malformed shapes",
+                                         "datauri": "3 media types x 3 parameter lists x 6 encodings x payloads over 9 bytes + 21 malformed shapes",
                                          "media": "2 types x 2 subtypes x parameters (0-2 spaces ; 0-1 space k=v) x leading/trailing space"}}
 
     # --- code -> spec: seeded random calls around the syntax boundaries, hash tables, all byte values
@@ -135,6 +142,7 @@ def run(ck):
     ck.cov["evaluations"] = sum(s["executions"] for s in sums.values()) + s2["executions"]
     ck.cov["distinct_nontrivial"] = sum(s["distinct_nontrivial"] for s in sums.values()) + s2["distinct_nontrivial"]
     ck.cov["cases_per_family"] = {f: sums[f]["cases"] for f in FAMS}
+    ck.cov["cases_replayed_against_impl"] = sum(s["cases"] for s in sums.values())
     ck.cov["rule"] = ("replay: every case TLC enumerated; non-trivial = distinct argument whose expected observation is not the trivial one "
                       "(number length > 0; decoding/encoding/lower-casing/trimming changes the text; EqualFold true; any data URI; media type "
                       "with parameters). record: distinct (family, argument, target) longer than one byte")
@@ -159,7 +167,8 @@ def run(ck):
                        "DecodeURL on malformed escapes, Dimension's unit when there is no number, parameters inside DataURI's media type, "
                        "Mediatype on values that are not well-formed lower-case unquoted (or that mime rejects), EqualFold with a non-lower-case "
                        "target: unconstrained (statement silent)",
-                       "percent-encoded data URIs escape '+' (QueryEscape reading of 'percent-encoding'); a literal '+' in a data URI payload decodes to a space"]
+                       "a literal '+' in a percent-encoded data URI payload may decode to a space (form-encoding reading) or to '+' (RFC 3986 reading): "
+                       "the statement does not choose; today DataURI returns a space, also for URIs written with the package's own DataURIEncodingTable"]
 
 
 def replay(ck, path):
